@@ -292,7 +292,7 @@ CLAIMED['C05'] = dict(
          'same for objects of simple classes (plain, no hooks, no registered bases or subclasses, with or '
          'without _yatiml_extra holding plain data) holding plain data, floats, paths, enum members, string-likes, Optional positions, '
          'Unions of members told apart by node kind, Any positions, leaf-class objects declared as a '
-         'registered ancestor (single-subclass chains) or '
+         'registered ancestor (sibling subtrees rejecting for lack of a required parameter) or '
          'such objects to any depth (C05_simple_objects_roundtrip: '
          'uniqueness of recognition at every node is derived, not assumed). '
          'The text layer is assumption A-text. On the real code load(dumps(v)) must be '
